@@ -172,7 +172,12 @@ class C18:
                             zs.append(z)
                         if len(zs) >= 3:
                             break
-                zimg = b.emit('pos_image', dict(base, zeros=zs), store='zimg')
+                zargs = dict(base, zeros=zs)
+                if rng.random() < 0.4:
+                    # raw camera frames are integer counts
+                    zargs['dtype'] = rng.choice(['uint8', 'uint16', 'int32',
+                                                 'float32'])
+                zimg = b.emit('pos_image', zargs, store='zimg')
                 b.emit('zero_filter', {'det': zimg},
                        tags={'k': 'zero_filter', 'zeros': zs,
                              'zkind': kind})
@@ -492,6 +497,11 @@ class C18:
                 a = sv[0]
                 o = ov[0] if ov.shape == sv.shape else np.squeeze(ov)
             n, m = a.shape
+            # the mean is formed in the precision of the frames
+            eps = max([EPS] + [np.finfo(x.dtype).eps
+                               for x in (vals(src), vals(out))
+                               if x.dtype.kind == 'f'])
+            a = a.astype(float)
             for i in range(n):
                 for j in range(m):
                     if (i, j) in zs:
@@ -502,7 +512,7 @@ class C18:
                             want = (a[i, j - 1] + a[i, j + 1]) / 2
                         else:
                             want = (a[i - 1, j] + a[i + 1, j]) / 2
-                        if abs(o[i, j] - want) > 16 * EPS * abs(want):
+                        if abs(o[i, j] - want) > 16 * eps * abs(want):
                             ex.add(violation(
                                 'C18.zero_filter', ev['id'],
                                 'dead pixel (%d,%d) replaced by %r, '
